@@ -203,7 +203,8 @@ var (
 	vsOwn     = errors.New("verif sentinel own-id")            // never registered with edf; own id in some configurations
 	vsLowID   = errors.New("verif sentinel low-id %d")         // cached under an id <= 32767: must travel as text
 	vsTwin    = errors.New("verif sentinel %A (registered)")   // same text as vsRegA, never cached
-	sentinels = []error{gen.ErrTimeout, gen.ErrProcessUnknown, gen.TerminateReasonNormal, gen.TerminateReasonKill, vsRegA, vsRegB, vsOwn, vsLowID, vsTwin}
+	// gen.ErrIncorrect is the first error edf's init registers: it owns the first ErrCache id (32768)
+	sentinels = []error{gen.ErrTimeout, gen.ErrProcessUnknown, gen.TerminateReasonNormal, gen.TerminateReasonKill, vsRegA, vsRegB, vsOwn, vsLowID, vsTwin, gen.ErrIncorrect}
 )
 
 const (
@@ -228,6 +229,11 @@ var edfAtomPool = []gen.Atom{
 	"node1@localhost", "node2@localhost", "verif_reg_a", "verif_reg_b", "verif_reg_c", "x", "", "proc", "ev",
 	gen.Atom(strings.Repeat("L", 255)), "mapped_src", "mapped_dst", "ключ",
 }
+
+// what the boundary-id configurations give the ids 256/257/65535, 4096/4097/65535 to
+var edfBoundaryAtoms = []gen.Atom{"node1@localhost", "node2@localhost", "proc"}
+var edfBoundaryTypes = []reflect.Type{reflect.TypeOf(SPrim{}), reflect.TypeOf(NInt(0)), reflect.TypeOf(NSliceStr(nil))}
+var edfBoundarySentinels = []error{gen.ErrIncorrect, gen.ErrTimeout, vsOwn} // ids 32768, 32769 (edf's own), 65534
 
 // atoms registered with edf.RegisterAtom (global ids from edf.GetAtomCache)
 var edfRegisteredAtoms = []gen.Atom{"verif_reg_a", "verif_reg_b", "verif_reg_c"}
@@ -687,6 +693,7 @@ type edfCfg struct {
 	RegHalf                          bool // only every second registered type is in the RegCache
 	ErrForeign                       bool // the decoding side knows sentinel 1 only as a text error (no local equivalent)
 	NoDecCaches                      bool // hostile: ids arrive but the decoding side has no caches at all
+	Boundary                         bool // hand-assigned cache ids at the boundaries (256/257/65535, 4096/4097/65535, 32768/32769/65534)
 
 	Enc, Dec edf.Options
 	// mirrors used by the harness' own reasoning
@@ -730,6 +737,8 @@ func edfConfigs() []*edfCfg {
 		{Name: "all-foreignerr", Atom: true, Reg: true, Err: true, Cache: true, ErrForeign: true},
 		{Name: "mapE", MapE: true, Cache: true},
 		{Name: "atom+mapD", Atom: true, MapD: true},
+		{Name: "boundary-ids", Atom: true, Reg: true, Err: true, Boundary: true},
+		{Name: "boundary-ids+cache", Atom: true, Reg: true, Err: true, Cache: true, Boundary: true},
 	}
 	for _, c := range specs {
 		c.build()
@@ -745,7 +754,17 @@ func (c *edfCfg) build() {
 	c.Enc, c.Dec = edf.Options{}, edf.Options{}
 	c.Lines = []string{"clear"}
 
-	if c.Atom {
+	if c.Atom && c.Boundary {
+		c.atomE[edfBoundaryAtoms[0]], c.atomE[edfBoundaryAtoms[1]], c.atomE[edfBoundaryAtoms[2]] = 256, 257, 65535
+		next := uint16(258)
+		for _, a := range edfAtomPool {
+			if _, ok := c.atomE[a]; !ok && a != "mapped_dst" && a != "ключ" {
+				c.atomE[a] = next
+				next++
+			}
+		}
+	}
+	if c.Atom && !c.Boundary {
 		// ids handed out by edf.RegisterAtom, plus an own assignment for the rest of the pool
 		for id, a := range edf.GetAtomCache() {
 			for _, ra := range edfRegisteredAtoms {
@@ -775,6 +794,8 @@ func (c *edfCfg) build() {
 				next++
 			}
 		}
+	}
+	if c.Atom {
 		for a, id := range c.atomE {
 			c.atomD[id] = a
 		}
@@ -836,14 +857,34 @@ func (c *edfCfg) build() {
 			mine[n] = true
 		}
 		var names []string
-		for id, n := range edf.GetRegCache() {
-			if mine[n] {
-				c.regE[n] = id
-				c.regD[id] = n
-				names = append(names, n)
+		if c.Boundary {
+			// the caches are plain sync.Maps: ids assigned by hand, the first two and the last possible one included
+			ids := map[reflect.Type]uint16{}
+			ids[edfBoundaryTypes[0]], ids[edfBoundaryTypes[1]], ids[edfBoundaryTypes[2]] = 4096, 4097, 65535
+			next := uint16(4098)
+			for i, e := range edfRegs {
+				if _, ok := ids[e.T]; !ok && i%3 != 0 {
+					ids[e.T] = next
+					next++
+				}
 			}
+			enc := new(sync.Map)
+			for t, id := range ids {
+				n := edfRegByT[t].Name
+				c.regE[n], c.regD[id] = id, n
+				enc.Store(t, []byte{131, byte(id >> 8), byte(id)})
+			}
+			c.Enc.RegCache = enc
+		} else {
+			for id, n := range edf.GetRegCache() {
+				if mine[n] {
+					c.regE[n] = id
+					c.regD[id] = n
+					names = append(names, n)
+				}
+			}
+			c.Enc.RegCache = edf.MakeEncodeRegTypeCache(names)
 		}
-		c.Enc.RegCache = edf.MakeEncodeRegTypeCache(names)
 		d := new(sync.Map)
 		var le, ld []string
 		for id, n := range c.regD {
